@@ -328,6 +328,7 @@ pub fn run(ctx: &Ctx) -> EvidenceMeta {
             .push("all 10 well-formed tails over {MESSAGE-INTEGRITY, MESSAGE-INTEGRITY-SHA256, FINGERPRINT} for every generated prefix".into());
         ctx.merge_stats(st);
     }
+    ctx.bytes_check("raw-repaired", raw_repaired);
     EvidenceMeta {
         rule: "accepted messages = generated prefix of 0..6 ordinary attributes (duplicates, non-zero padding) followed by EVERY well-formed \
                tail ([], [MI], [SHA], [MI,SHA], [SHA,MI], each with and without FP), plus accepted grammar-generated messages. Oracle: the \
@@ -341,7 +342,28 @@ pub fn run(ctx: &Ctx) -> EvidenceMeta {
     }
 }
 
-pub fn replay(_check: &str, case: &Value, st: &mut Stats) -> Result<TestResult, String> {
+/// raw fuzz check: the input repaired into a well-formed buffer, judged by the exposure rule
+fn raw_repaired(data: &[u8], st: &mut Stats) -> TestResult {
+    st.eval();
+    let b = crate::gen::repair_message(data, true);
+    if check_message(&b, st)? {
+        let r = refstun::parse(&b);
+        if let RefParse::Accept(r) = r {
+            let tails = r.attrs.iter().filter(|a| a.ty == refstun::T_MI || a.ty == refstun::T_SHA256 || a.ty == T_FP).count();
+            st.class("raw: accepted message judged");
+            if tails >= 2 {
+                st.class("raw: accepted message with >= 2 tail attributes");
+                st.nontrivial(digest(&b));
+            }
+        }
+    }
+    Ok(())
+}
+
+pub fn replay(check: &str, case: &Value, st: &mut Stats) -> Result<TestResult, String> {
+    if check == "raw-repaired" {
+        return Ok(raw_repaired(&crate::gen::raw_case_bytes(case)?, st));
+    }
     let c: Case = parse_case(case)?;
     Ok(test(&c, st))
 }
